@@ -60,7 +60,7 @@ var (
 	wStart   time.Time
 	wActive  bool
 	wOp      string
-	deadline = 4 * time.Second
+	deadline = 1500 * time.Millisecond
 )
 
 func watchdog(w *tr.W) {
@@ -509,6 +509,9 @@ func main() {
 	flag.Parse()
 	w := tr.NewW()
 	defer w.Flush()
+	if *replay != "" {
+		deadline = 300 * time.Millisecond // replayed cases are small; keeps shrinking of a hang fast
+	}
 	go watchdog(w)
 	if *replay != "" {
 		cs, err := tr.ReadCases(*replay)
